@@ -328,8 +328,8 @@ In(x, c, dv) ==
   CASE c.t = "nil" -> Bool(FALSE)
     [] c.t = "arr" -> Bool(\E i \in 1..Len(c.a) : EqualB(c.a[i], x, dv))
     [] c.t = "map" -> IF ~IsStr(x) THEN Err("type") ELSE Bool(MapIdx(c, x.s) # {})
-    [] c.t = "iset" -> IF IsInt(x) /\ x.k = "int" THEN Bool(x.n \in c.ks) ELSE Err("type")
-    [] c.t = "sset" -> IF IsStr(x) THEN Bool(x.s \in c.ks) ELSE Err("type")
+    [] c.t = "iset" -> IF IsInt(x) /\ x.k = "int" THEN Bool(\E i \in 1..Len(c.ks) : c.ks[i] = x.n) ELSE Err("type")
+    [] c.t = "sset" -> IF IsStr(x) THEN Bool(\E i \in 1..Len(c.ks) : c.ks[i] = x.s) ELSE Err("type")
     [] c.t = "obj" -> IF ~IsStr(x) THEN Err("type") ELSE Bool(x.s \in DOMAIN c.f)
     [] c.t = "ptr" -> IF c.isnil THEN Bool(FALSE) ELSE In(x, c.to, dv)
     [] OTHER -> Err("type")
